@@ -320,6 +320,10 @@ public:
             throw nix::InvalidDimension("The ticks of a range dimension must not be empty!",
                                         "DataArray::appendRangeDimension");
         }
+        if (unit.size() > 0 && !util::isSIUnit(unit)) {
+            throw InvalidUnit("Unit is not an atomic SI. Note: So far composite units are not supported",
+                              "DataArray::appendRangeDimension");
+        }
         RangeDimension dim = backend()->createRangeDimension(backend()->dimensionCount() + 1, ticks);
         if (label.size() > 0)
             dim.label(label);
@@ -371,6 +375,10 @@ public:
      */
     SampledDimension appendSampledDimension(double sampling_interval, const std::string &label="",
                                             const std::string &unit="", double offset=0.0) {
+        if (unit.size() > 0 && !util::isSIUnit(unit)) {
+            throw InvalidUnit("Unit is not a SI unit. Note: so far, only atomic SI units are supported.",
+                              "DataArray::appendSampledDimension");
+        }
         SampledDimension dim = backend()->createSampledDimension(backend()->dimensionCount() + 1,
                                                                  sampling_interval);
         if (label.size() > 0)
